@@ -4,7 +4,8 @@ import concurrent.futures, os, sys
 sys.path.insert(0, os.path.join(os.path.dirname(os.path.abspath(__file__)), "..", "tools"))
 import vlib, runner, gcgen, edgecover
 
-BUGS = {"tls": "SafeCollect", "coop": "DownClean", "stop": "DelWorks", "noclear": "Once", "nested": "DownClean", "tearonce": "DownClean"}
+BUGS = {"tls": "SafeCollect", "coop": "DownClean", "stop": "DelWorks", "noclear": "Once", "nested": "DownClean", "tearonce": "DownClean",
+        "noflush": "SafeCollect"}          # the mark phase does not spill the registers into the frame it scans
 
 
 def setup(chk, tier, want_bugs):
@@ -16,6 +17,7 @@ def setup(chk, tier, want_bugs):
                           "6g" if quick else "24g", (), None, 3000)
         f_edge = ex.submit(vlib.tlc, "Heap", "Heap_edges.cfg", wd, 4, "4g")
         f_spawn = ex.submit(vlib.tlc, "Heap", "Heap_spawn.cfg", wd, 4, "4g")        # finalisers that allocate (during a sweep, during teardown)
+        f_regs = ex.submit(vlib.tlc, "Heap", "Heap_regs.cfg", wd, 4, "4g")          # references the compiler keeps in callee-saved registers only
         f_bug = {b: ex.submit(vlib.tlc, "Heap", "Heap_bug_%s.cfg" % b, wd, 2, "2g") for b in want_bugs}
         lib = f_lib.result()
         harness = vlib.build_harness_wb(lib, ["h_gc.c"], os.path.join(wd, "h_gc"), ("GC.c",), chk.notes)
@@ -25,6 +27,10 @@ def setup(chk, tier, want_bugs):
     chk.model(r_edge, "Heap/Heap_edges.cfg")
     r_spawn = f_spawn.result()
     chk.model(r_spawn, "Heap/Heap_spawn.cfg")
+    r_regs = f_regs.result()
+    chk.model(r_regs, "Heap/Heap_regs.cfg")
+    if not r_regs.ok:
+        print("MODEL-DRIFT module=Heap (registers): %s" % r_regs.invariant, flush=True)
     if not r_spawn.ok:
         print("MODEL-DRIFT module=Heap (spawners): %s" % r_spawn.invariant, flush=True)
     if not r_exh.ok:
